@@ -1555,6 +1555,18 @@ let all_LogicalLineType =
                                     (app (LLT_Unknown :: [])
                                       (LLT_Voided :: []))))))))))))))))))
 
+(** val keywordKind_is_numeric_operator : keywordKind -> bool **)
+
+let keywordKind_is_numeric_operator = function
+| KK_And -> true
+| KK_Div -> true
+| KK_Mod -> true
+| KK_Or -> true
+| KK_Shl -> true
+| KK_Shr -> true
+| KK_Xor -> true
+| _ -> false
+
 (** val commentKind_is_singleline : commentKind -> bool **)
 
 let commentKind_is_singleline = function
@@ -6125,6 +6137,441 @@ let parse_file_lines is_directive ntok pass_results =
       (&&) (is_directive i) (negb (existsb (Nat.eqb i) pushed))) (seq O ntok)
   in
   consolidate_pass merged (map (fun i -> i :: []) dirs)
+
+(** val lT_G : tokenType **)
+
+let lT_G =
+  TT_Op (OK_LessThan ChK_Generic)
+
+(** val gT_G : tokenType **)
+
+let gT_G =
+  TT_Op (OK_GreaterThan ChK_Generic)
+
+(** val set_nth0 : nat -> tokenType -> tokenType list -> tokenType list **)
+
+let rec set_nth0 i v = function
+| [] -> []
+| x :: r -> (match i with
+             | O -> v :: r
+             | S i' -> x :: (set_nth0 i' v r))
+
+type arm =
+| A_Lt
+| A_Comma
+| A_Plain
+| A_Gt
+| A_LBrack
+| A_RBrack
+| A_InBrack
+| A_Break
+
+(** val arm_of : tokenType option -> bool -> nat -> arm **)
+
+let arm_of t prev_was_string brack_count =
+  match t with
+  | Some t0 ->
+    (match t0 with
+     | TT_Op k ->
+       (match k with
+        | OK_Comma -> A_Comma
+        | OK_Semicolon -> A_Plain
+        | OK_Colon -> A_Plain
+        | OK_LessThan _ -> A_Lt
+        | OK_GreaterThan _ -> A_Gt
+        | OK_LBrack ->
+          if (||) prev_was_string (Nat.ltb O brack_count)
+          then A_LBrack
+          else A_Break
+        | OK_RBrack -> if Nat.ltb O brack_count then A_RBrack else A_Break
+        | OK_Dot -> A_Plain
+        | _ -> if Nat.ltb O brack_count then A_InBrack else A_Break)
+     | TT_Keyword kk ->
+       (match kk with
+        | KK_Array -> A_Plain
+        | KK_Class -> A_Plain
+        | KK_Constructor -> A_Plain
+        | KK_Of -> A_Plain
+        | KK_Record -> A_Plain
+        | KK_Set -> A_Plain
+        | KK_String -> A_Plain
+        | _ ->
+          if (&&) (Nat.ltb O brack_count) (keywordKind_is_numeric_operator kk)
+          then A_InBrack
+          else A_Break)
+     | TT_TextLiteral _ ->
+       if Nat.ltb O brack_count then A_InBrack else A_Break
+     | TT_NumberLiteral _ ->
+       if Nat.ltb O brack_count then A_InBrack else A_Break
+     | TT_Eof -> A_Break
+     | TT_Unknown -> A_Break
+     | _ -> A_Plain)
+  | None -> A_Break
+
+(** val gt_blocked : tokenType option -> bool **)
+
+let gt_blocked = function
+| Some t ->
+  (match t with
+   | TT_Op k -> (match k with
+                 | OK_AddressOf -> true
+                 | _ -> false)
+   | TT_Identifier -> true
+   | TT_Keyword k -> (match k with
+                      | KK_Not -> true
+                      | _ -> false)
+   | _ -> false)
+| None -> false
+
+(** val pws_next : tokenType option -> bool -> bool **)
+
+let pws_next t prev_was_string =
+  match t with
+  | Some ty ->
+    if tokenType_is_comment_or_directive ty
+    then prev_was_string
+    else (match ty with
+          | TT_Keyword k -> (match k with
+                             | KK_String -> true
+                             | _ -> false)
+          | _ -> false)
+  | None -> prev_was_string
+
+(** val rbrack_pop : (nat * nat) list -> nat -> (nat * nat) list * nat **)
+
+let rec rbrack_pop st brack_count =
+  match st with
+  | [] -> ([], brack_count)
+  | p :: r ->
+    if Nat.ltb (snd p) brack_count
+    then ((p :: r), (sub brack_count (S O)))
+    else rbrack_pop r brack_count
+
+type ires =
+| I_Done of tokenType list * nat
+| I_Fuel
+| I_Panic
+
+(** val generics_inner :
+    nat -> tokenType list -> (nat * nat) list -> bool -> bool -> nat -> nat
+    -> ires **)
+
+let rec generics_inner fuel toks st comma_found prev_was_string brack_count next_idx =
+  match st with
+  | [] -> I_Done (toks, next_idx)
+  | top :: rest ->
+    (match fuel with
+     | O -> I_Fuel
+     | S fuel' ->
+       let t = nth_error toks next_idx in
+       let pws' = pws_next t prev_was_string in
+       (match arm_of t prev_was_string brack_count with
+        | A_Lt ->
+          generics_inner fuel' toks ((next_idx, brack_count) :: st)
+            comma_found pws' brack_count (S next_idx)
+        | A_Comma ->
+          generics_inner fuel' toks st true pws' brack_count (S next_idx)
+        | A_Gt ->
+          if (&&) comma_found (gt_blocked (nth_error toks (S next_idx)))
+          then I_Done (toks, next_idx)
+          else let open_idx = fst top in
+               if (&&) (Nat.ltb open_idx (length toks))
+                    (Nat.ltb next_idx (length toks))
+               then generics_inner fuel'
+                      (set_nth0 next_idx gT_G (set_nth0 open_idx lT_G toks))
+                      rest comma_found pws' (snd top) (S next_idx)
+               else I_Panic
+        | A_LBrack ->
+          generics_inner fuel' toks st comma_found pws' (S brack_count) (S
+            next_idx)
+        | A_RBrack ->
+          let r = rbrack_pop st brack_count in
+          generics_inner fuel' toks (fst r) comma_found pws' (snd r) (S
+            next_idx)
+        | A_Break -> I_Done (toks, next_idx)
+        | _ ->
+          generics_inner fuel' toks st comma_found pws' brack_count (S
+            next_idx)))
+
+type gres =
+| G_Ok of tokenType list
+| G_Fuel
+| G_Panic
+
+(** val is_less_than : tokenType option -> bool **)
+
+let is_less_than = function
+| Some t0 ->
+  (match t0 with
+   | TT_Op k -> (match k with
+                 | OK_LessThan _ -> true
+                 | _ -> false)
+   | _ -> false)
+| None -> false
+
+(** val generics_outer : nat -> tokenType list -> nat -> gres **)
+
+let rec generics_outer fuel toks token_idx =
+  if Nat.leb (length toks) token_idx
+  then G_Ok toks
+  else (match fuel with
+        | O -> G_Fuel
+        | S fuel' ->
+          if is_less_than (nth_error toks token_idx)
+          then (match generics_inner (S (length toks)) toks ((token_idx,
+                        O) :: []) false false O (S token_idx) with
+                | I_Done (toks', next_idx) ->
+                  generics_outer fuel' toks' next_idx
+                | I_Fuel -> G_Fuel
+                | I_Panic -> G_Panic)
+          else generics_outer fuel' toks (S token_idx))
+
+(** val generics_run : tokenType list -> gres **)
+
+let generics_run toks =
+  generics_outer (S (length toks)) toks O
+
+(** val generics_consolidate : tokenType list -> tokenType list **)
+
+let generics_consolidate toks =
+  match generics_run toks with
+  | G_Ok r -> r
+  | _ -> toks
+
+type decisionRequirement =
+| DR_Indifferent
+| DR_Invalid
+| DR_MustBreak
+| DR_MustNotBreak
+
+(** val formatting_invariant :
+    tokenType option -> tokenType option -> bool -> decisionRequirement option **)
+
+let formatting_invariant prev cur cd_outside_line0 =
+  match prev with
+  | Some t ->
+    (match t with
+     | TT_Op _ ->
+       (match cur with
+        | Some t0 ->
+          (match t0 with
+           | TT_TextLiteral k0 ->
+             (match k0 with
+              | TK_MultiLine -> Some DR_MustBreak
+              | _ -> None)
+           | TT_Comment k0 ->
+             (match k0 with
+              | CoK_InlineBlock -> Some DR_MustNotBreak
+              | CoK_InlineLine -> Some DR_MustNotBreak
+              | _ -> Some DR_MustBreak)
+           | _ -> None)
+        | None -> None)
+     | TT_Keyword _ ->
+       (match cur with
+        | Some t0 ->
+          (match t0 with
+           | TT_TextLiteral k0 ->
+             (match k0 with
+              | TK_MultiLine -> Some DR_MustBreak
+              | _ -> None)
+           | TT_Comment k0 ->
+             (match k0 with
+              | CoK_InlineBlock -> Some DR_MustNotBreak
+              | CoK_InlineLine -> Some DR_MustNotBreak
+              | _ -> Some DR_MustBreak)
+           | _ -> None)
+        | None -> None)
+     | TT_TextLiteral k ->
+       (match k with
+        | TK_Unterminated ->
+          (match cur with
+           | Some t0 ->
+             (match t0 with
+              | TT_Comment k0 ->
+                (match k0 with
+                 | CoK_InlineBlock -> Some DR_MustNotBreak
+                 | CoK_InlineLine -> Some DR_MustNotBreak
+                 | _ -> Some DR_MustBreak)
+              | _ -> Some DR_MustBreak)
+           | None -> Some DR_MustBreak)
+        | _ ->
+          (match cur with
+           | Some t0 ->
+             (match t0 with
+              | TT_TextLiteral k0 ->
+                (match k0 with
+                 | TK_MultiLine -> Some DR_MustBreak
+                 | _ -> None)
+              | TT_Comment k0 ->
+                (match k0 with
+                 | CoK_InlineBlock -> Some DR_MustNotBreak
+                 | CoK_InlineLine -> Some DR_MustNotBreak
+                 | _ -> Some DR_MustBreak)
+              | _ -> None)
+           | None -> None))
+     | TT_NumberLiteral _ ->
+       (match cur with
+        | Some t0 ->
+          (match t0 with
+           | TT_TextLiteral k0 ->
+             (match k0 with
+              | TK_MultiLine -> Some DR_MustBreak
+              | _ -> None)
+           | TT_Comment k0 ->
+             (match k0 with
+              | CoK_InlineBlock -> Some DR_MustNotBreak
+              | CoK_InlineLine -> Some DR_MustNotBreak
+              | _ -> Some DR_MustBreak)
+           | _ -> None)
+        | None -> None)
+     | TT_ConditionalDirective _ ->
+       (match cur with
+        | Some t0 ->
+          (match t0 with
+           | TT_TextLiteral k0 ->
+             (match k0 with
+              | TK_MultiLine -> Some DR_MustBreak
+              | _ -> if cd_outside_line0 then Some DR_MustBreak else None)
+           | TT_Comment k0 ->
+             (match k0 with
+              | CoK_InlineBlock -> Some DR_MustNotBreak
+              | CoK_InlineLine -> Some DR_MustNotBreak
+              | _ -> Some DR_MustBreak)
+           | _ -> if cd_outside_line0 then Some DR_MustBreak else None)
+        | None -> if cd_outside_line0 then Some DR_MustBreak else None)
+     | TT_Comment k ->
+       (match k with
+        | CoK_InlineBlock ->
+          (match cur with
+           | Some t0 ->
+             (match t0 with
+              | TT_TextLiteral k0 ->
+                (match k0 with
+                 | TK_MultiLine -> Some DR_MustBreak
+                 | _ -> None)
+              | TT_Comment k0 ->
+                (match k0 with
+                 | CoK_InlineBlock -> Some DR_MustNotBreak
+                 | CoK_InlineLine -> Some DR_MustNotBreak
+                 | _ -> Some DR_MustBreak)
+              | _ -> None)
+           | None -> None)
+        | CoK_IndividualBlock ->
+          (match cur with
+           | Some t0 ->
+             (match t0 with
+              | TT_TextLiteral k0 ->
+                (match k0 with
+                 | TK_MultiLine -> Some DR_MustBreak
+                 | _ -> None)
+              | TT_Comment k0 ->
+                (match k0 with
+                 | CoK_InlineBlock -> Some DR_MustNotBreak
+                 | CoK_InlineLine -> Some DR_MustNotBreak
+                 | _ -> Some DR_MustBreak)
+              | _ -> None)
+           | None -> None)
+        | _ ->
+          (match cur with
+           | Some t0 ->
+             (match t0 with
+              | TT_Comment k0 ->
+                (match k0 with
+                 | CoK_InlineBlock -> Some DR_MustNotBreak
+                 | CoK_InlineLine -> Some DR_MustNotBreak
+                 | _ -> Some DR_MustBreak)
+              | _ -> Some DR_MustBreak)
+           | None -> Some DR_MustBreak))
+     | _ ->
+       (match cur with
+        | Some t0 ->
+          (match t0 with
+           | TT_TextLiteral k ->
+             (match k with
+              | TK_MultiLine -> Some DR_MustBreak
+              | _ -> None)
+           | TT_Comment k ->
+             (match k with
+              | CoK_InlineBlock -> Some DR_MustNotBreak
+              | CoK_InlineLine -> Some DR_MustNotBreak
+              | _ -> Some DR_MustBreak)
+           | _ -> None)
+        | None -> None))
+  | None -> Some DR_MustNotBreak
+
+(** val cd_outside_line : nat list -> nat -> bool **)
+
+let cd_outside_line line_tokens line_index =
+  let a = match line_index with
+          | O -> None
+          | S k -> nth_error line_tokens k in
+  let b = nth_error line_tokens line_index in
+  (match a with
+   | Some x ->
+     (match b with
+      | Some idx -> negb (Nat.eqb idx (S x))
+      | None -> true)
+   | None -> (match b with
+              | Some _ -> true
+              | None -> false))
+
+(** val token_type_for_line_index :
+    tokenType list -> nat list -> nat -> tokenType option **)
+
+let token_type_for_line_index types line_tokens line_index =
+  match nth_error line_tokens line_index with
+  | Some token_index -> nth_error types token_index
+  | None -> None
+
+(** val prev_token_type_for_line_index :
+    tokenType list -> nat list -> nat -> tokenType option **)
+
+let prev_token_type_for_line_index types line_tokens line_index =
+  match nth_error line_tokens line_index with
+  | Some token_index ->
+    (match token_index with
+     | O -> None
+     | S prev_index -> nth_error types prev_index)
+  | None -> None
+
+(** val get_formatting_invariant :
+    tokenType list -> nat list -> nat -> decisionRequirement option **)
+
+let get_formatting_invariant types line_tokens line_index =
+  formatting_invariant
+    (prev_token_type_for_line_index types line_tokens line_index)
+    (token_type_for_line_index types line_tokens line_index)
+    (cd_outside_line line_tokens line_index)
+
+(** val respects : decisionRequirement option -> bool -> bool **)
+
+let respects inv brk =
+  match inv with
+  | Some d ->
+    (match d with
+     | DR_MustBreak -> brk
+     | DR_MustNotBreak -> negb brk
+     | _ -> true)
+  | None -> true
+
+(** val line_violations :
+    tokenType list -> bool list -> nat list -> nat list **)
+
+let line_violations types brks line_tokens =
+  flat_map (fun li ->
+    match nth_error line_tokens li with
+    | Some ti ->
+      if respects (get_formatting_invariant types line_tokens li)
+           (nth ti brks false)
+      then []
+      else ti :: []
+    | None -> []) (seq O (length line_tokens))
+
+(** val lines_violations :
+    tokenType list -> bool list -> nat list list -> nat list **)
+
+let lines_violations types brks lines =
+  flat_map (line_violations types brks) lines
 
 module MLStringJoin =
  struct
